@@ -546,6 +546,46 @@ func (c *Ctx) c19Stream() {
 	})
 	c.check(dry, "E7", fname(f)+"/dry-up", c.ipos(cmp), "grace-period test only once the stream was declared drying up",
 		"the grace-period give-up does not depend on IsRunningDry(): a stream that has not been told to dry up stops yielding future pages")
+	// the reference instant of the grace period keeps moving while the stream has not been told to dry up:
+	// from the "not running dry" side every path to the fetch of the future page refreshes timeReachLast
+	isRefresh := func(in ssa.Instruction) bool {
+		cl, ok := in.(*ssa.Call)
+		if !ok || !strings.HasSuffix(calleeFull(&cl.Call), "atomic.Time).Store") {
+			return false
+		}
+		_, ok = fieldLoad(cl.Call.Args[0], "AbstractStreamPaginator", "timeReachLast")
+		return ok
+	}
+	var fetchFuture ssa.Instruction
+	allInstrs(f, func(in ssa.Instruction) {
+		if cl, ok := in.(*ssa.Call); ok && strings.HasSuffix(calleeFull(&cl.Call), ".FetchFuturePage") {
+			fetchFuture = cl
+		}
+	})
+	refreshed := fetchFuture != nil
+	nDry := 0
+	for _, b := range f.Blocks {
+		ifi, ok := b.Instrs[len(b.Instrs)-1].(*ssa.If)
+		if !ok {
+			continue
+		}
+		v, ts := boolTest(ifi)
+		cl, ok := v.(*ssa.Call)
+		if !ok || !strings.HasSuffix(calleeFull(&cl.Call), ".IsRunningDry") {
+			continue
+		}
+		nDry++
+		notDry := b.Succs[1-ts]
+		first := notDry.Instrs[0]
+		if isRefresh(first) {
+			continue
+		}
+		if first == fetchFuture || pathAvoiding(first, isRefresh, func(in ssa.Instruction) bool { return in == fetchFuture }) != nil {
+			refreshed = false
+		}
+	}
+	c.check(refreshed && nDry > 0, "E7", fname(f)+"/grace-from-dry-up", c.pos(f.Pos()), "timeReachLast is refreshed on every pass while the stream is not declared dry",
+		"while the stream has not been told to dry up the reference instant of the grace period is not refreshed: the grace period is then counted from the last item seen instead of from DryUp(), and items of future pages arriving within the grace period are never yielded")
 	// and the future page fetched is installed
 	var fetch, set *ssa.Call
 	allInstrs(f, func(in ssa.Instruction) {
